@@ -16,14 +16,15 @@ RULE = (
     "(a) every partial ranking over n candidates (and a card lacking the contest) x every ordered (winner, loser) pair x "
     "every eliminated set E not containing them: the ballot is written once as a RAIRE-format row, read by both readers, "
     "and the audit-side assorter value (assertion built through make_assertions_from_json) is compared with "
-    "(w - l + 1)/2 from the generator's own is_vote_for_winner/loser; (b) RAIRE-format files with 1-2 contests, repeated "
+    "(w - l + 1)/2 from the generator's own is_vote_for_winner/loser (again with the card's {candidate: rank} dictionary keyed in reverse and by name; and every pair of "
+    "assertions built together through one make_assertions_from_json call must come back as two assertions scoring all rankings as the generator's do); (b) RAIRE-format files with 1-2 contests, repeated "
     "ballot identifiers across contests and all rankings as ballots: both readers must induce the same preference order "
     "on every (ballot, contest); (c) every assertion returned by compute_raire_assertions on the profile lattice, "
     "re-applied to the CVRs through its own predicates, must reproduce its reported tallies.  Non-trivial = (ballot, "
     "assertion) with assorter value != 1/2; distinct = distinct (n, ballot, assertion, value)"
 )
 ASSUMPTIONS = ["duplicate-free rankings only (as the property states)", "candidate identifiers without commas or surrounding blanks"]
-REQUIRE_VAC = ["assorter_values_0", "assorter_values_1", "NEN_assertions_reapplied", "reader_ballots_compared", "files_read"]
+REQUIRE_VAC = ["assorter_values_0", "assorter_values_1", "NEN_assertions_reapplied", "reader_ballots_compared", "files_read", "assertion_pairs_built_together", "pairs_with_same_winner_and_loser"]
 PLAN = {"quick": {"ns": [2, 3, 4], "reapply": [(3, 4), (4, 2)]}, "thorough": {"ns": [2, 3, 4, 5], "reapply": [(3, 6), (4, 3), (5, 2)]}}
 TMP = "/dev/shm" if os.path.isdir("/dev/shm") else None
 
@@ -118,7 +119,50 @@ def judge_ballot(n, r, a, acvr=None, rcvr=None):
                     f"winner={wv} loser={lv} -> {want}"))
     if (wv, lv) != (rw, rl):
         out.append((f"C14|generator-vs-definition|{a[0]}", f"generator verdict ({wv},{lv}) differs from the definition ({rw},{rl})"))
+    # the same ballot with its {candidate: rank} dictionary keyed in another order (reversed / by name) is the same ballot
+    if r is not None and len(r) >= 2 and "con1" in acvr.votes:
+        items = list(acvr.votes["con1"].items())
+        for label, perm in (("reversed", items[::-1]), ("sorted by name", sorted(items))):
+            if perm == items:
+                continue
+            try:
+                val2 = asn.assorter.assort(CVR(id="b2", votes={"con1": dict(perm)}))
+            except Exception as e:  # noqa
+                out.append((f"C14|assorter-exception|{type(e).__name__}", f"audit assorter raised {type(e).__name__}: {e}"))
+                break
+            if val2 != want:
+                out.append((f"C14|assorter-depends-on-dict-order|{a[0]}", f"ballot {'>'.join(s2r.NAMES[c] for c in r)} with its vote dictionary keyed {label}: assorter {val2}, "
+                            f"generator verdicts give {want}"))
+                break
     return out, val
+
+
+def judge_pair(n, a1, a2):
+    """two assertions handed to make_assertions_from_json in one list: two audit assertions come back, and their assorters'
+    value vectors over all rankings are those of the two generator assertions"""
+    con = audit_contest(n)
+    cands = [s2r.NAMES[c] for c in range(n)]
+    js, gens = [], []
+    for kind, w, l, E in (a1, a2):
+        if kind == "NEB":
+            js.append({"winner": s2r.NAMES[w], "loser": s2r.NAMES[l], "assertion_type": "WINNER_ONLY", "already_eliminated": ""})
+            gens.append(RU.NEBAssertion("con1", s2r.NAMES[w], s2r.NAMES[l]))
+        else:
+            js.append({"winner": s2r.NAMES[w], "loser": s2r.NAMES[l], "assertion_type": "IRV_ELIMINATION", "already_eliminated": [s2r.NAMES[c] for c in E]})
+            gens.append(RU.NENAssertion("con1", s2r.NAMES[w], s2r.NAMES[l], [s2r.NAMES[c] for c in E]))
+    try:
+        asn = Assertion.make_assertions_from_json(contest=con, candidates=cands, json_assertions=js)
+    except Exception as e:  # noqa
+        return [(f"C14|pair|exception|{type(e).__name__}", f"make_assertions_from_json raised {type(e).__name__}: {str(e)[:80]}")]
+    if len(asn) != 2:
+        return [("C14|pair|assertion-lost", f"{len(asn)} audit assertion(s) built from the two assertions {js} (labels {list(asn)})")]
+    ranks = [r_ for r_ in R.rankings(n)]
+    want = sorted(tuple((g.is_vote_for_winner({"con1": {s2r.NAMES[c]: k for k, c in enumerate(r_)}}) - g.is_vote_for_loser({"con1": {s2r.NAMES[c]: k for k, c in enumerate(r_)}}) + 1) / 2
+                        for r_ in ranks) for g in gens)
+    got = sorted(tuple(x.assorter.assort(CVR(id="b", votes={"con1": {s2r.NAMES[c]: k + 1 for k, c in enumerate(r_)}})) for r_ in ranks) for x in asn.values())
+    if got != want:
+        return [("C14|pair|assorters-differ-from-generator", f"the audit assertions built from {js} do not score the {len(ranks)} rankings as the generator's two assertions do")]
+    return []
 
 
 def run_assorter_shard(sh, rec):
@@ -252,8 +296,22 @@ def run_reapply_shard(sh, rec):
                     rec.violate(key, what, {"kind": "reapply", "n": n, "profile": list(prof), "winner": winner, "func": kind})
 
 
+def run_pair_shard(sh, rec):
+    _, n, i = sh
+    menu = assertion_menu(n)
+    for j in range(i + 1, len(menu)):
+        rec.state()
+        rec.trans()
+        rec.evals()
+        rec.vac("assertion_pairs_built_together")
+        if menu[i][1:3] == menu[j][1:3]:
+            rec.vac("pairs_with_same_winner_and_loser")
+        for key, what in judge_pair(n, menu[i], menu[j]):
+            rec.violate(key, what, {"kind": "pair", "n": n, "a1": [menu[i][0], menu[i][1], menu[i][2], list(menu[i][3])], "a2": [menu[j][0], menu[j][1], menu[j][2], list(menu[j][3])]})
+
+
 def run_shard(sh, rec):
-    {"assort": run_assorter_shard, "readers": run_reader_shard, "reapply": run_reapply_shard}[sh[0]](sh, rec)
+    {"assort": run_assorter_shard, "readers": run_reader_shard, "reapply": run_reapply_shard, "pair": run_pair_shard}[sh[0]](sh, rec)
 
 
 def explore(tier, seed):
@@ -263,6 +321,9 @@ def explore(tier, seed):
         sh.append(("readers", n))
         for a in assertion_menu(n):
             sh.append(("assort", n, a))
+        if n <= 4:
+            for i in range(len(assertion_menu(n))):
+                sh.append(("pair", n, i))
     for (n, B, first) in s2r.shards(plan["reapply"]):
         sh.append(("reapply", n, B, first))
     return core.pmap(run_shard, sh, seed, progress="C14")
@@ -273,6 +334,9 @@ def run_case(case):
         a = case["assertion"]
         r = case["ranking"]
         return judge_ballot(case["n"], None if r is None else tuple(r), (a[0], a[1], a[2], tuple(a[3])))[0]
+    if case["kind"] == "pair":
+        a1, a2 = case["a1"], case["a2"]
+        return judge_pair(case["n"], (a1[0], a1[1], a1[2], tuple(a1[3])), (a2[0], a2[1], a2[2], tuple(a2[3])))
     if case["kind"] == "readers":
         return judge_readers(case["n"], case["layout"])[0]
     return judge_reapply(case["n"], tuple(case["profile"]), case["winner"], case["func"])[0]
